@@ -57,14 +57,43 @@ def run(ctx):
         p, n = pipeline.gen_tlc(ctx, "OFGen", ofcorpus.cfg(fam, tags, stride if q else max(1, stride // 3), 0), "OFGen[%s]" % fam, "x" + fam,
                                 expect_min=1, workers=8, xmx="8g")
         rows += vlib.read_ndjson(p)
+    frames = []
     for fam in swcorpus.FAMS:
         p, n = swcorpus.gen(ctx, fam, "{7}")
-        rows += [dict(id=r["id"], frame=r["frame"]) for r in vlib.read_ndjson(p)]
+        frames += [dict(id=r["id"], frame=r["frame"]) for r in vlib.read_ndjson(p)]
     for r in rows:
         r.pop("trees", None)
+    cap = 300 if q else 1500
+    # values built with the constructors' defaults only (shared default state would show as order dependence)
+    defaults = []
+    for i, (ctor, args) in enumerate([("NewHello", [4]), ("NewFlowMod", []), ("NewGroupMod", []), ("NewSetConfig", []), ("NewEchoRequest", []),
+                                      ("NewFeaturesRequest", []), ("NewTLVTableRequest", []), ("NewSetControllerID", [[0, 9]]),
+                                      ("NewHelloElemVersionBitmap", []), ("NewInstrApplyActions", []), ("NewNXActionConnTrack", []),
+                                      ("NewNXActionCTNAT", []), ("NewNXActionLearn", []), ("NewBucket", []), ("NewMatch", []),
+                                      ("NewPhyPort", []), ("NewDescStats", []), ("NewPortStatus", []), ("NewFlowStats", []),
+                                      ("NewEthernet", []), ("NewIPv4", []), ("NewUDP", []), ("NewICMP", [])]):
+        ops = [dict(op="new", **{"as": "d"}, ctor=ctor, args=args)]
+        if ctor in ("NewHello", "NewFlowMod", "NewGroupMod", "NewSetConfig", "NewEchoRequest", "NewFeaturesRequest"):
+            ops.append(dict(op="set", obj="d", f="Xid", val=[0, 0, 1, i]))
+        elif ctor in ("NewTLVTableRequest", "NewSetControllerID"):
+            ops.append(dict(op="set", obj="d", f="Header.Xid", val=[0, 0, 1, i]))
+        elif ctor == "NewPortStatus":
+            ops.append(dict(op="set", obj="d", f="Xid", val=[0, 0, 1, i]))
+        defaults.append(dict(id="default-%s" % ctor, k="build", fam="D", top="d", ops=ops, observe=[["len", "d"], ["marshal", "d"]], kids=[]))
+    if len(rows) > cap:
+        step = len(rows) / float(cap)
+        rows = [rows[int(i * step)] for i in range(cap)]
+    # hello frames with bitmaps that differ from the library's default are always part of the corpus
+    fcap = 150 if q else 600
+    sw = [f for f in frames if f["id"].startswith("SW-")]
+    rest = [f for f in frames if not f["id"].startswith("SW-")]
+    if len(rest) > fcap:
+        step = len(rest) / float(fcap)
+        rest = [rest[int(i * step)] for i in range(fcap)]
+    rows = defaults[:len(defaults) // 2] + rows + sw + rest + defaults[len(defaults) // 2:]
     vlib.write_ndjson(corpus, rows)
     cgs = [4, 16] if q else [2, 4, 16, 64]
-    cscen = [dict(id="conc-g%d" % g, k="conc", corpus=corpus, goroutines=g, rounds=1 if q else 2, maxprocs=0, expect=len(rows) * (1 if q else 2))
+    cscen = [dict(id="conc-g%d" % g, k="conc", corpus=corpus, goroutines=g, rounds=1 if q else 2, maxprocs=0, expect=len(rows) * g * (1 if q else 2))
              for g in cgs]
     cp = os.path.join(ctx.scratch, "scen-conc.ndjson")
     vlib.write_ndjson(cp, cscen)
